@@ -13,7 +13,7 @@ pub fn prop() -> Prop {
         rule: "values: every string of length <=2 (thorough <=3, and 4 over an 8-character core) over a 49-character alphabet (all C0 controls, DEL, quote, backslash, slash, U+0080, U+00FF, U+2028/9, U+D7FF, U+E000, U+FFFD, U+FFFF, U+10000, U+1F603, U+10FFFF, 'a') as a value, as a member name and inside an array; 26 boundary numbers; 17 computed numbers (results of arithmetic incl. overflow); ~90 containers of depth <=3 with 0/1/2 members and 18 array/object chains of depth 8..64; strings of 15..4097 characters with a special character first or last (as value, member name, element) and arrays/objects of 15..1025 members; x 3 styles x utf8 on/off x 4 row separators; each case = 2 runs (output fed back); non-trivial = a character outside ' '..'~', a number that is not a small integer, or a non-empty container; distinct by construction; 4 inputs x 10 selection sets (rows built by jawk from selections, incl. selections that share a name, where every printed object must still have distinct member names)",
         explanation: "stdout is framed by the row separator and each row is read by the independent strict RFC 8259 reader and compared with the reference value; style relations (consise has no insignificant whitespace, one-line no line break, pretty = one element/member per line with indentation c*depth, all three equal after deleting insignificant whitespace) and the byte-for-byte fixpoint of a second run are checked on every case",
         assumptions: COMMON_ASSUMPTIONS.to_vec(),
-        guards: vec!["selections-sharing-a-name", "size-thresholds", "control-character", "astral-character", "pretty-nested", "computed-non-finite", "separator-without-newline", "utf8-on"],
+        guards: vec!["separator-of-minus-signs-touching-the-next-row", "selections-sharing-a-name", "size-thresholds", "control-character", "astral-character", "pretty-nested", "computed-non-finite", "separator-without-newline", "utf8-on"],
         budget_s: (100, 2400),
         single_worker: false,
         run,
@@ -28,7 +28,7 @@ pub fn alphabet() -> Vec<char> {
 }
 
 const STYLES: [&str; 3] = ["one-line", "consise", "pretty"];
-const SEPS: [&str; 4] = ["\n", "---\n", "\r\n", " "];
+const SEPS: [&str; 5] = ["\n", "---\n", "\r\n", " ", "---"];
 
 /// delete whitespace outside strings
 fn strip_ws(s: &[u8]) -> Vec<u8> {
@@ -316,6 +316,14 @@ fn check_item(ctx: &mut Ctx, it: &Item) {
                         continue;
                     }
                 }
+                // a separator made of minus signs cannot be told from the start of a number: no re-reading claim then
+                if sep == "---" && rows.iter().any(|(t, _)| t.first().map(|b| *b == b'-' || b.is_ascii_digit()).unwrap_or(false)) {
+                    ctx.outcome("ok");
+                    continue;
+                }
+                if sep == "---" {
+                    ctx.guard("separator-of-minus-signs-touching-the-next-row");
+                }
                 // fixpoint: feed the output back with the same options (without the selection that computed it)
                 let mut args2: Vec<String> = args.iter().filter(|a| !a.starts_with("--select=")).cloned().collect();
                 if it.args.iter().any(|a| a.starts_with("--select=")) {
@@ -520,7 +528,7 @@ fn run(ctx: &mut Ctx) {
     ctx.level_done("size-thresholds(strings-to-4097,containers-to-1025-members)");
     // ---- rows built by selections (the printed row is an object made by jawk, not one it read), incl. selections sharing a name
     let sel_inputs = ["{\"a\": 1, \"b\": \"x\", \"c\": [1, {\"a\": 2}]}", "{\"a\": 1} {\"b\": 2} {\"c\": 3}", "{\"b\": null, \"a\": {\"b\": \"\\u00e9\"}}", "[1, 2] 5 {\"a\": []}"];
-    let sel_sets: [&[&str]; 10] = [
+    let sel_sets: [&[&str]; 13] = [
         &[".a=n"],
         &[".a=n", ".b=m"],
         &[".a=n", ".b=n"],
@@ -531,6 +539,10 @@ fn run(ctx: &mut Ctx) {
         &[".=n", ".=n"],
         &["(? (object? .) . (push [] .))=n", ".a=a", ".b=a"],
         &["(.len)=n", "(stringify .)=n"],
+        // names that are not ASCII: they are printed by the same rules as any other string of the row
+        &[".a=prix \u{20ac}", ".b=caf\u{e9}"],
+        &[".a=\u{1f603} n", ".b=k"],
+        &[".=\u{7f}\u{2028}q\"r\\"],
     ];
     for (ii, input) in sel_inputs.iter().enumerate() {
         for (si, set) in sel_sets.iter().enumerate() {
